@@ -2,6 +2,7 @@ import VaxisModel.Model.WrapDraw
 import VaxisModel.Spec.WrapDraw
 import VaxisModel.Lemmas.WrapDraw
 import VaxisModel.Lemmas.Wrap
+import VaxisModel.Witness.F316
 
 /-! C16 — "the text widgets draw exactly the emitted lines, one per row".
 
@@ -14,7 +15,7 @@ namespace VaxisModel.Props.C16Draw
 open VaxisModel.Model VaxisModel.Model.WrapDraw
 open VaxisModel.Model.Wrap (Cell sumW richLines plainLines hardLines Lines)
 open VaxisModel.Lemmas.WrapDraw
-open VaxisModel.Spec.WrapDraw (over width splitNl)
+open VaxisModel.Spec.WrapDraw (over overHard width splitNl)
 
 /-- What the current source says (extracted facts): surface arithmetic in `int`, `WriteCell` rejects
 `row >= Height`; soft-wrap `findContainerSize` stops at `size.Height >= Max.Height`; the row loop of
@@ -136,6 +137,56 @@ terminates on every input and returns **exactly** the split of the cells at the 
 final "\n" adds no empty line, the empty text has no line). -/
 theorem hardwrap_is_split_at_newline (cells : List Cell) : hardLines cells = .ok (splitNl cells) :=
   hardLines_eq_split cells
+
+/-- What the source says about the hard-wrap mode of `RichText.Draw` (extracted guards). -/
+theorem facts_hard_mode :
+    (Layout.richMode true).hard = true ∧ (Layout.richMode true).sizeStrict = true ∧
+    (Layout.richMode true).drawStrict = true ∧ (Layout.richMode true).fill = none ∧
+    (Layout.richMode true).ellipsisStyle = none := ⟨rfl, rfl, rfl, rfl, rfl⟩
+
+/-- **`RichText.Draw` with `Softwrap = false`**, for every text and every `Max`: no panic, no hang;
+`min (#lines) Max.Height` rows where the lines are the split of the cells at the "\n" graphemes
+(`hardwrap_is_split_at_newline`); row `y` shows line `y` as `Spec.WrapDraw.overHard` describes the
+code: graphemes at their columns, the first one that reaches or passes `Max.Width` replaced by "…"
+in its own style, the rest dropped. -/
+theorem hard_draw_rows (maxW maxH : UInt16) (cells : List Cell)
+    (hw : ∀ l ∈ splitNl cells, sumW l < 65536) :
+    ∃ s, richHardDraw maxW maxH cells = .ok s ∧
+      s.h.toNat = min (splitNl cells).length maxH.toNat ∧
+      s.buf.length = s.h.toNat * s.w.toNat ∧
+      ∀ x y, x < s.w.toNat → y < s.h.toNat →
+        cellAt s x y = overHard maxW.toNat none (((splitNl cells).getD y []).map toWin) 0 (fun _ => some default) x := by
+  have hall : ∀ l ∈ (splitNl cells).map (·.map toWin), (∀ c ∈ l, 0 ≤ c.w) ∧ width l < 65536 := by
+    intro l hl
+    obtain ⟨l0, hl0, rfl⟩ := List.mem_map.mp hl
+    refine ⟨?_, by rw [width_toWin]; exact hw l0 hl0⟩
+    intro c hc
+    obtain ⟨c0, _, rfl⟩ := List.mem_map.mp hc
+    simp [toWin]
+  obtain ⟨s, h1, _, h3, h4, h5⟩ := drawText_cells_hard (Layout.richMode true) rfl rfl rfl (ctxOf maxW maxH) _ hall
+  refine ⟨s, ?_, by simpa [ctxOf] using h3, h4, ?_⟩
+  · simp only [richHardDraw, hardwrap_is_split_at_newline, facts_draw_modes.1, h1, WrapDraw.ofExcept]
+  · intro x y hx hy
+    rw [h5 x y hx hy]
+    have : ((splitNl cells).map (·.map toWin)).getD y [] = ((splitNl cells).getD y []).map toWin := by
+      simp only [List.getD_eq_getElem?_getD, List.getElem?_map]
+      cases (splitNl cells)[y]? <;> rfl
+    rw [this]; rfl
+
+/-- "draws exactly the line" for the hard-wrap widget, full statement: a line that fits the widget
+(`width ≤ Max.Width`) is drawn as it is.  **False** of the current code (finding F316: a line that
+fits exactly loses its last grapheme to an ellipsis). -/
+def hard_draw_exact_full : Prop :=
+  ∀ (maxW : Nat) (est : Option Nat) (line : List Window.Cell) (f : Nat → Option Window.Cell) (x : Nat),
+    width line ≤ maxW → overHard maxW est line 0 f x = over line 0 f x
+
+theorem hard_draw_exact_full_fails : ¬ hard_draw_exact_full := VaxisModel.Witness.F316.exact_fit_is_truncated
+
+/-- …proved for lines strictly narrower than `Max.Width`: drawn exactly as in the soft-wrap mode,
+no ellipsis. -/
+theorem hard_draw_exact_partial (maxW : Nat) (est : Option Nat) (line : List Window.Cell)
+    (f : Nat → Option Window.Cell) (h : width line < maxW) : overHard maxW est line 0 f = over line 0 f :=
+  overHard_fits maxW est line 0 f (by simpa using h)
 
 /-- Non-vacuity: "世a" drawn by RichText at Max 5×3 gives a 3×1 surface `世 _ a`. -/
 example :
